@@ -112,6 +112,9 @@ def strategy(tier):
             # None: default (simple) cycle settings; list: detailed cycle history with this many burn steps per cycle, so that the
             # documented negative node index of Database.load ("indexed from EOC backwards like a list") can be exercised
             "cycles": st.one_of(st.none(), st.lists(st.integers(1, 4), min_size=1, max_size=4)),
+            # None, or the name of a labelled state point written beside the last node with a different state ("EOL" is the
+            # one armi itself writes), loaded back through load() and loadReadOnly() with that label
+            "label": st.sampled_from([None, None, "EOL", "special"]),
         }
     )
 
@@ -457,6 +460,29 @@ def execute(case):
                 rn = db.load(cyc, neg, cs=cs, bp=bp)
                 for x in ob.diff(_normalise(_observe(r1)), _normalise(_observe(rn)), limit=3):
                     out.fail("negative-node/" + _sig_of(x), "load(%d, %d) != load(%d, %d) with %r burn steps per cycle: %s" % (cyc, neg, cyc, node, cyc_steps, x))
+        label = case.get("label")
+        if clean and label:
+            # a second state under the same (cycle, node), told apart by its label only
+            out.label("labelled-state-point")
+            r.core.p.power = float(r.core.p.power or 0.0) + 12.5
+            comps = _objects(r, "comp")
+            if comps:
+                comps[0].setTemperature(comps[0].temperatureInC + 7.0)
+            db.writeInputsToDB(cs, bpString=text)  # loadReadOnly takes settings and blueprints from the file itself
+            db.writeToDB(r, statePointName=label)
+            r.sort()
+            for how, loader in (("load", db.load), ("loadReadOnly", db.loadReadOnly)):
+                rl = loader(cyc, node, statePointName=label) if how == "loadReadOnly" else loader(cyc, node, cs=cs, bp=bp, statePointName=label)
+                got = _normalise(_observe(rl))
+                want = _normalise(_observe(r))
+                _align_unlocated(want, got)
+                if how == "loadReadOnly":
+                    got["name"] = want["name"]  # (the reactor is named after the case title of the settings stored in the file)
+                for x in ob.diff(want, got, limit=3):
+                    out.fail("labelled/%s/%s" % (how, _sig_of(x)), "%s(%d, %d, statePointName=%r) != the state written under that label: %s" % (how, cyc, node, label, x))
+            plain = _normalise(_observe(db.load(cyc, node, cs=cs, bp=bp)))
+            for x in ob.diff(_normalise(_observe(r1)), plain, limit=3):
+                out.fail("labelled/plain-node-changed/" + _sig_of(x), "the unlabelled node changed when a labelled state was written beside it: " + x)
         if clean:
             r2 = db.load(cyc, node, cs=cs, bp=bp)
             c = _normalise(_observe(r2))
@@ -549,7 +575,7 @@ PARTS = [
               "integer/float types, un-setting, temperature, composition scaling and new nuclides incl. isomeric states, swaps, rotations, discharge to SFP, third->full conversion, "
               "time) then writeToDB -> load; in half of the cases the program is split and two snapshots are written through the same "
               "open database and both loaded back; oracle observe() equality original (as observed when written) vs loaded, load "
-              "twice, load(write(load)), and (with a detailed cycle history) the same snapshot addressed by its negative node index; non-trivial = >= 2 kinds of state change or a pin lattice"),
+              "twice, load(write(load)), a labelled state point beside the last node loaded through load() and loadReadOnly(), and (with a detailed cycle history) the same snapshot addressed by its negative node index; non-trivial = >= 2 kinds of state change or a pin lattice"),
     Part("nodefault_partial", nodefault_execute, strategy=nodefault_strategy, budget={"quick": 24, "thorough": 400}, procs={"quick": 1, "thorough": 4},
          rule="a persistent component parameter without default (buRate, zrFrac) assigned on one or on all components of a class, "
               "then write -> load; the value must come back; non-trivial = assigned on a strict subset (the known-finding shape)"),
